@@ -292,7 +292,39 @@ def run_impl(pid, seed, n, tier, outdir, timeout, mode="gen", replay=None):
 R_RE = re.compile(r'R\s*=\s*(\[.*?\])\s*:\s*list', re.S)
 
 
+class Slot:
+    """Machine-wide cap on concurrently running Coq shard evaluations (nproc slots,
+    shared by all bin/check processes through lock files)."""
+    N = os.cpu_count() or 16
+
+    def __enter__(self):
+        import random
+        d = os.path.join(BUILD, "slots")
+        os.makedirs(d, exist_ok=True)
+        while True:
+            start = random.randrange(self.N)
+            for i in range(self.N):
+                k = (start + i) % self.N
+                f = open(os.path.join(d, "slot%d.lock" % k), "w")
+                try:
+                    fcntl.flock(f, fcntl.LOCK_EX | fcntl.LOCK_NB)
+                    self.f = f
+                    return self
+                except OSError:
+                    f.close()
+            time.sleep(0.15)
+
+    def __exit__(self, *a):
+        fcntl.flock(self.f, fcntl.LOCK_UN)
+        self.f.close()
+
+
 def judge_shard(path, timeout):
+    with Slot():
+        return judge_shard_locked(path, timeout)
+
+
+def judge_shard_locked(path, timeout):
     rc, out = run(["coqc", "-Q", COQ, "verif", os.path.basename(path)], timeout, cwd=os.path.dirname(path))
     if rc != 0:
         return None, out[-1500:]
@@ -413,6 +445,14 @@ def main(argv=None):
         log("[%s] %d theorems checked in %ss" % (pid, obligations, b.get("make_s")))
     else:
         log("[%s] BROKEN OBLIGATION: %s\n%s" % (pid, b["failed"], b["log"][-1500:]))
+    chk_summary = None
+    if b["ok"] and tier == "thorough":
+        ok_chk, chk_summary = coqchk(pid, cfg)
+        log("[%s] %s" % (pid, chk_summary))
+        if not ok_chk:
+            b["ok"] = False
+            b["failed"] = chk_summary
+            discharged = 0
     if gate:
         b["ok"] = False
         b["failed"] = "forbidden declarations: " + ", ".join(gate[:10])
@@ -524,7 +564,7 @@ def main(argv=None):
             "obligations": max(obligations, 1), "discharged": discharged,
             "checker_cmd": b.get("checker_cmd", "make -C coq"),
             "trusted_base": TRUSTED_COMMON + cfg["trusted_base"] + [
-                "Print Assumptions %s: %s" % (n_, a) for n_, a in assump.items()],
+                "Print Assumptions %s: %s" % (n_, a) for n_, a in assump.items()] + ([chk_summary] if chk_summary else []),
             "theorems": names,
             "evaluations": total_cases, "distinct_nontrivial": len(keys_nt),
             "rule": cfg["rule"], "samples": samples or ["none"],
@@ -548,6 +588,39 @@ def main(argv=None):
         print(l)
     print("%s %s: %d theorems, %d cases, exit %d, %.0fs" % (pid, tier, obligations, total_cases, exit_code, time.time() - t0))
     return exit_code
+
+
+def coqchk(pid, cfg):
+    """Thorough tier: independent re-check of the property's .vo closure with coqchk -o.
+    Returns (ok, summary).  Cached per content hash of the dependency closure."""
+    files = dep_closure(cfg["props_file"])
+    h = hashlib.sha1()
+    for f in files:
+        try:
+            h.update(open(os.path.join(COQ, f), "rb").read())
+        except OSError:
+            pass
+    stamp = os.path.join(BUILD, "coqchk_%s_%s.txt" % (pid, h.hexdigest()[:12]))
+    if os.path.exists(stamp):
+        out = open(stamp).read()
+    else:
+        mod = "verif." + cfg["props_file"].replace(".v", "").replace("/", ".")
+        rc, out = run(["coqchk", "-silent", "-o", "-Q", COQ, "verif", mod], cfg.get("coqchk_timeout", 3000), cwd=COQ)
+        if rc == 0:
+            open(stamp, "w").write(out)
+        else:
+            return False, "coqchk failed: " + out[-800:]
+    m = re.search(r'\* Axioms:(.*?)\* Constants/Inductives relying on type-in-type:(.*?)\* Constants/Inductives relying on unsafe.*?:(.*?)\* Inductives whose positivity is assumed:(.*)', out, re.S)
+    if not m:
+        return False, "coqchk output not understood: " + out[-400:]
+    ax, tit, unsafe, pos = [" ".join(x.split()) for x in m.groups()]
+    ok = tit == "<none>" and unsafe == "<none>" and pos == "<none>"
+    if ax != "<none>":
+        allowed = cfg.get("allowed_axioms", [])
+        names = re.findall(r'([A-Za-z_][\w.\']*)\s*(?=$|\s)', ax)
+        if not all(any(n.endswith(a) for a in allowed) for n in names):
+            ok = False
+    return ok, "coqchk -silent -o: axioms=%s; type-in-type=%s; unsafe fixpoints=%s; assumed positivity=%s" % (ax, tit, unsafe, pos)
 
 
 def fingerprint_drift(cfg):
